@@ -92,13 +92,13 @@ Print Assumptions AL_Map_equiv.
 
 (* ====================== SinglyLinkedList ====================== *)
 Module SE := SinglyLinkedListEnumGen.
-Definition IS : SE.List_iface := SE.mk_List_iface (list Z) (fun l vs => (sll_add vs l, tt)) indexed [].
+Definition IS : SE.List_iface := SE.mk_List_iface (list Z) (fun l vs => (sll_add vs l, tt)) (fun _ => ([], tt)) (fun l => l) indexed [].
 
 Module SENames.
 Import Coq.Strings.String.
 (* OBLIGATION *)
 Theorem SLL_translated_functions :
-  SE.translated = ["All"; "Any"; "Find"; "Map"; "Select"]%string /\ SE.skipped = ["Each"]%string /\ SE.not_selected = [].
+  SE.translated = ["All"; "Any"; "Find"; "FromJSON"; "Map"; "MarshalJSON"; "Select"; "ToJSON"; "UnmarshalJSON"]%string /\ SE.skipped = ["Each"]%string /\ SE.not_selected = [].
 Proof. repeat split. Qed.
 Print Assumptions SLL_translated_functions.
 End SENames.
@@ -164,13 +164,13 @@ Print Assumptions SLL_Map_equiv.
 
 (* ====================== DoublyLinkedList ====================== *)
 Module DE := DoublyLinkedListEnumGen.
-Definition ID : DE.List_iface := DE.mk_List_iface (list Z) (fun l vs => (dll_add vs l, tt)) indexed [].
+Definition ID : DE.List_iface := DE.mk_List_iface (list Z) (fun l vs => (dll_add vs l, tt)) (fun _ => ([], tt)) (fun l => l) indexed [].
 
 Module DENames.
 Import Coq.Strings.String.
 (* OBLIGATION *)
 Theorem DLL_translated_functions :
-  DE.translated = ["All"; "Any"; "Find"; "Map"; "Select"]%string /\ DE.skipped = ["Each"]%string /\ DE.not_selected = [].
+  DE.translated = ["All"; "Any"; "Find"; "FromJSON"; "Map"; "MarshalJSON"; "Select"; "ToJSON"; "UnmarshalJSON"]%string /\ DE.skipped = ["Each"]%string /\ DE.not_selected = [].
 Proof. repeat split. Qed.
 Print Assumptions DLL_translated_functions.
 End DENames.
